@@ -246,6 +246,11 @@ func run(r *hx.Run) error {
 			return "", false
 		})
 	}
+	if v := os.Getenv("C07CAPS_IMG_ONLY"); v != "" { // developer aid: only the image scenarios, v per combination
+		per := 6
+		fmt.Sscanf(v, "%d", &per)
+		return imgCases(r, gen.New(r.Seed^0x1396a7), per)
+	}
 	// the cursor-in-column-2 scenario of the fixed explicit-width probe defect, for every subset of a few bits
 	for adv := uint32(0); adv < 1<<19; adv += 1 << 15 {
 		for _, ic := range []int{1, 2, 3} {
@@ -287,9 +292,9 @@ func run(r *hx.Run) error {
 		}
 	}
 	// image objects at run time: all 2^3 graphics advertisements x 3 pixel-size situations x random other capabilities
-	ni := 6
+	ni := 12
 	if r.Thorough {
-		ni = 60
+		ni = 200
 	}
 	if err := imgCases(r, gen.New(r.Seed^0x1396a7), ni); err != nil {
 		return err
